@@ -325,11 +325,26 @@ func c29Expiry(r *hlib.Rand) []string {
 	return []string{hx(mixCase(r, kind)), hx(arg)}
 }
 
+// the int64 boundary set: stored values and deltas of INCRBY/DECRBY pairs are drawn from it
+var c29Boundary = []string{"-9223372036854775808", "-9223372036854775807", "-1", "0", "1", "9223372036854775806", "9223372036854775807"}
+
 func genC29(r *hlib.Rand, tier string) []string {
 	n := 8 + r.Intn(33)
 	var ops []string
 	add := func(parts ...string) { ops = append(ops, "cmd "+strings.Join(parts, " ")) }
 	for i := 0; i < n; i++ {
+		if r.Chance(18) {
+			// boundary pair: a key holding a value at an int64 limit, then INCRBY/DECRBY by a delta at a limit
+			k := hlib.Hex(hlib.Pick(r, c29Keys))
+			add(hx("SET"), k, hx(hlib.Pick(r, c29Boundary)))
+			for j, m := 0, 1+r.Intn(3); j < m; j++ {
+				add(hx(mixCase(r, hlib.Pick(r, []string{"INCRBY", "DECRBY"}))), k, hx(hlib.Pick(r, c29Boundary)))
+			}
+			if r.Bool() {
+				add(hx("GET"), k)
+			}
+			continue
+		}
 		switch x := r.Intn(100); {
 		case x < 22:
 			parts := []string{hx(mixCase(r, "SET")), c29Key(r), c29Value(r)}
